@@ -1053,7 +1053,7 @@ fn c11_monitor(op: &str, own: u16, trace: &[Message<'static>], script: &[Reply],
         }
     }
     let kind = &op[..3];
-    let kind = if kind == "SNP" || kind == "SNW" || kind == "SNL" { "SND" } else { kind };
+    let kind = if kind == "SNP" || kind == "SNW" || kind == "SNL" || kind == "SNQ" { "SND" } else { kind };
     if kind == "CFG" || kind == "CIN" || kind == "SND" {
         let (recv_op, success, failure) = if kind == "SND" {
             (Operation::ReceivePixels, State::PixelsReceived, State::PixelsFailed)
@@ -1720,6 +1720,8 @@ fn gen_c09(ctx: &mut Ctx) {
         // the same list from an iterator that looks at the shared bus whenever a page is taken from it (SNP), and -- once
         // per run, it costs 2.3 s per page after the first -- from one that takes its time over every page (SNW)
         let slow_iter = k == 13 && std::env::var("FDX_SKIP_SLOW").is_err();
+        // a page source that can be walked only once (a shared queue) is used where the far side reports no failure
+        let fails_q = k % 16 == 2;
         if slow_iter {
             pages = vec![small_page(1, 8, 8, &mut rng), small_page(2, 90, 7, &mut rng)];
             items = pages.iter().map(|p| bytes_of_hex(p.split('.').nth(2).unwrap())).collect();
@@ -1728,9 +1730,9 @@ fn gen_c09(ctx: &mut Ctx) {
             items = vec![SIGN_TYPES[t].to_bytes().to_vec()];
             format!("CFG.{}.{}", own, t)
         } else {
-            format!("{}.{}.{}", if slow_iter { "SNW" } else if k % 8 == 5 { "SNP" } else if k % 8 == 1 { "SNL" } else { "SND" }, own, if pages.is_empty() { "-".to_string() } else { pages.join("+") })
+            format!("{}.{}.{}", if slow_iter { "SNW" } else if k % 8 == 5 { "SNP" } else if k % 8 == 1 { "SNL" } else if k % 8 == 2 && fails_q { "SNQ" } else { "SND" }, own, if pages.is_empty() { "-".to_string() } else { pages.join("+") })
         };
-        let fails_override = if slow_iter { Some(0) } else { None };
+        let fails_override = if slow_iter || (k % 8 == 2 && fails_q) { Some(0) } else { None };
         if crate::eval::snd_unconstructible(&op) {
             ctx.case(format!("CT {} N", op), true, "unconstructible-page");
             continue;
